@@ -88,9 +88,11 @@ def _view(tree, is_wt, git):
     if git and is_wt:
         # iter_entries_by_dir of a git working tree leaves out tracked symlinks that are missing on disk;
         # the index (all_versioned_paths) still has them
-        for path in tree.all_versioned_paths():
+        allp = set(tree.all_versioned_paths())
+        for path in allp:
             if path not in out:
-                out[path] = {"parent": os.path.dirname(path), "name": os.path.basename(path), "kind": None, "stored_kind": "unlisted",
+                isdir = any(q.startswith(path + "/") for q in allp)  # (a directory implied by the files below it)
+                out[path] = {"parent": os.path.dirname(path), "name": os.path.basename(path), "kind": None, "stored_kind": "directory" if isdir else "unlisted",
                              "content": None, "exec": None, "path": path}
     return out
 
